@@ -29,6 +29,32 @@ CHECKS = {
              'pjsim/service); the transport is SimNet at the _request seam, not an HTTP back-end.',
         technique='deterministic simulation: seeded two-party runs, virtual-time event loop, differential oracle vs direct call',
     ),
+    'C09': dict(
+        category='exploration', design_ref='DESIGN.md section 3, C09',
+        text='Seeded fault sequences under a virtual clock: the real retry loops and backoff generators run against a '
+             'simulated transport whose k-th attempt returns a success, a listed/unlisted error code, a batch-level '
+             'error, raises a listed / subclass / unlisted exception or a BaseException, or returns an undecodable / '
+             'invalid / mismatching reply, with virtual latencies; sleeping goes through a time seam, so the number of '
+             'sends, every pause (exact equality with the closed backoff formulas), the absence of pauses before the '
+             'first and after the last send, and the identity of the outcome reaching the caller are compared with a '
+             'reference retry model. Sampled over strategies, placements (client-wide / per-request / disabled / '
+             'replaced), request kinds and both clients.',
+        note='Trusted: ref_retry (closed formulas), the time seam (pjrpc.client.retry.time / .asyncio and time.sleep '
+             'shimmed), SimNet. Jitter callables are constants; durations are dyadic rationals so equality is exact.',
+        technique='deterministic simulation: scripted per-attempt fault sequences, virtual clock, reference retry model',
+    ),
+    'C19': dict(
+        category='exploration', design_ref='DESIGN.md section 3, C19',
+        text='Recording tracers on the real sync and async clients; per-attempt outcomes scripted on the simulated '
+             'transport (responses, error responses, transport exceptions, undecodable / invalid / id-mismatching '
+             'replies, BaseException), retries under the virtual clock and, on the async client, cancellation of the '
+             'caller task at seeded virtual instants (before the first send, inside the transport, inside a backoff '
+             'sleep, after the reply). The recorded history is checked for begin/completion pairing per tracer and '
+             'attempt, completion kind and payload, configuration order, context and request identity, and identity of '
+             'the exception reaching the caller.',
+        note='Trusted: the pairing oracle (Appendix F.6), SimLoop cancellation timing, SimNet. Tracers do not raise.',
+        technique='deterministic simulation: fault sequences + seeded cancellation instants, history pairing oracle',
+    ),
 }
 
 BUILT = sorted(CHECKS)
